@@ -30,6 +30,9 @@ pub enum Seg {
     Raw(u8),
     /// the valid name with character-level edits, percent-encoded
     Edit(Vec<CharEdit>),
+    /// the n-th integer of `NUMBERS` (limits of the integer types, and values just inside them that
+    /// are absurd as a count, an offset, an age or a time) - for the segments that are parsed as numbers
+    Number(u8),
 }
 
 #[derive(Clone, Debug, Serialize, Deserialize)]
@@ -63,6 +66,13 @@ const SPECIAL: &[&str] = &[
     "AS-1", "ROUTER-0000FBF0-0000000000000000000000000000000000000000", "ROUTER-0000FBF0-", "ROUTER-FFFFFFFFF-00", "notification.xml", "snapshot.xml", "index.html", "ta.cer", "x.json", "a/b", "a%2Fb/c",
 ];
 
+const NUMBERS: &[&str] = &[
+    "0", "1", "-1", "2", "255", "256", "65535", "65536", "2147483647", "2147483648", "-2147483648", "-2147483649", "4294967295", "4294967296", "1000000000000", "-1000000000000", "10000000000000",
+    "-10000000000000", "8210000000000", "8220000000000", "-8220000000000", "253402300799", "253402300800", "-62167219200", "-62167219201", "1000000000000000", "1000000000000000000", "-1000000000000000000",
+    "9223372036854775806", "9223372036854775807", "9223372036854775808", "-9223372036854775807", "-9223372036854775808", "-9223372036854775809", "18446744073709551614", "18446744073709551615",
+    "18446744073709551616", "9223372036854775", "9223372036854776", "-9223372036854776", "+9223372036854775807", "09223372036854775807",
+];
+
 fn pct(s: &str) -> String {
     let mut out = String::new();
     for b in s.bytes().take(3000) {
@@ -81,12 +91,13 @@ fn seg_text(s: &Seg, valid: &str) -> String {
         Seg::Nasty(n) => pct(&nasty(*n)),
         Seg::Special(n) => SPECIAL[*n as usize % SPECIAL.len()].to_string(),
         Seg::Edit(e) => pct(&edit_chars(valid, e)),
+        Seg::Number(n) => NUMBERS[*n as usize % NUMBERS.len()].to_string(),
         Seg::Raw(n) => nasty(*n).chars().filter(|c| !c.is_whitespace() && !c.is_control()).take(3000).collect(),
     }
 }
 
 pub fn http_in() -> impl Strategy<Value = HttpIn> {
-    let seg = prop_oneof![4 => Just(Seg::Valid), 3 => any::<u8>().prop_map(Seg::Nasty), 4 => any::<u8>().prop_map(Seg::Special), 1 => any::<u8>().prop_map(Seg::Raw), 4 => vec(char_edit(), 1..3).prop_map(Seg::Edit)];
+    let seg = prop_oneof![4 => Just(Seg::Valid), 3 => any::<u8>().prop_map(Seg::Nasty), 4 => any::<u8>().prop_map(Seg::Special), 3 => any::<u8>().prop_map(Seg::Number), 1 => any::<u8>().prop_map(Seg::Raw), 4 => vec(char_edit(), 1..3).prop_map(Seg::Edit)];
     let body = prop_oneof![
         2 => Just(Body::Valid),
         8 => vec(json_mut(), 1..4).prop_map(Body::Json),
